@@ -9,10 +9,11 @@ a) store handler: the mailbox send of ShardMessage::Store is dominated by the no
 b) ShardMessage::Store is constructed only in the store handler (crate-wide aggregate sweep).
 c) type_allows_value has an explicit arm for every FieldType variant (no wildcard); validate_payload returns Ok only after the extra-key check and rejects a type mismatch / missing required field.
 d) SchemaRegistry::define and define_async: the AlreadyDefined/EmptySchema returns guard both store.append and register_record; register_record only after append succeeded;
-   the define handler answers OK only on the Ok edge.
+   the define handler answers OK only on the Ok edge; the handler holds the registry's write lock across every call that can reach SchemaStore::append, so the already-defined check and the
+   durable append cannot be separated by a concurrent DEFINE (d3).
 """
-FLOOR = 5
-REQUIRED = ["C06.a", "C06.b", "C06.c", "C06.d1", "C06.d2"]
+FLOOR = 6
+REQUIRED = ["C06.a", "C06.b", "C06.c", "C06.d1", "C06.d2", "C06.d3"]
 
 
 def run(ctx):
@@ -206,3 +207,35 @@ def run(ctx):
                 bad.append(("ok-without-define", "define handler can answer OK without the registry having accepted the schema", None))
         return bad
     ctx.run("C06.d2", "K1 DOM", "handlers::define::handle", "OK only when the definition succeeded", d2)
+
+
+    def d3(inst):
+        cg = CallGraph(F)
+        b = F.fn("handlers::define::handle")
+        APPEND = "engine::schema::store::store::SchemaStore::append"
+        if APPEND not in cg.nodes:
+            raise AnchorMissing(APPEND)
+        reach_cache = {}
+
+        def reaches_append(callee):
+            if callee not in reach_cache:
+                reach_cache[callee] = APPEND in cg.reachable([callee])
+            return reach_cache[callee]
+        sinks = [c for c in b.calls if not c.cleanup and c.callee and c.callee in cg.nodes and reaches_append(c.callee)]
+        if not sinks:
+            raise AnchorMissing("no call in the define handler reaches SchemaStore::append")
+        wl = b.find_calls(r"tokio::sync::RwLock::write$")
+        inst.sites = [sp(b, c.bb) + " " + c.nname.split("::")[-1] for c in sinks] + [sp(b, w.bb) for w in wl]
+        if not wl:
+            return [("define-without-lock", "the define handler reaches the durable schema append without taking the registry write lock: two concurrent DEFINEs of one type can both be persisted", None)]
+        bad = []
+        for w in wl:
+            bad += held_guard_violations(b, w, [c.bb for c in sinks], guard_ty=r"RwLockWriteGuard")
+        # de-duplicate keys
+        seen, out = set(), []
+        for k_, d_, w_ in bad:
+            if k_ not in seen:
+                seen.add(k_)
+                out.append(("define-lock:" + k_, "define handler: %s (between the already-defined check and the durable append)" % d_, w_))
+        return out
+    ctx.run("C06.d3", "K5 HELD (interprocedural)", "handlers::define::handle", "check-then-append of a schema is atomic with respect to other DEFINEs", d3)
